@@ -29,9 +29,19 @@ def miss_path(body):
     b = 0
     seen = set()
     pending = None
+    flags = {}
     while b not in seen:
         seen.add(b)
         t = body.term(b)
+        # drop flags and other bool locals set to constants on the way
+        for stt in body.blocks[b]["stmts"]:
+            if stt["k"] == "assign" and not stt["lhs"]["p"] and stt["rv"]["k"] == "use":
+                cc = mir.op_const(stt["rv"]["op"])
+                ci = mir.const_int(cc) if cc is not None else None
+                if ci is not None:
+                    flags[stt["lhs"]["l"]] = ci
+                else:
+                    flags.pop(stt["lhs"]["l"], None)
         if b in lk:
             pending = (lk[b][0], b, lk[b][1])
         k = t["k"]
@@ -52,6 +62,11 @@ def miss_path(body):
             b = t["t"]
             continue
         if k == "switch":
+            plf = op_place(t["op"])
+            if plf is not None and not plf["p"] and plf["l"] in flags:
+                val = flags[plf["l"]]
+                b = next((tb for x, tb in t["targets"] if int(x) == val), t["otherwise"])
+                continue
             v = G.describe(body, t["op"])
             if pending and v.kind == "discr":
                 pl = op_place(t["op"])
@@ -67,6 +82,9 @@ def miss_path(body):
                     pending = None
                     b = none_edge
                     continue
+            # a branch after the last display tag has been consulted (choosing the default text) ends the walk
+            if not any(x in lk for x in body.reachable(b)):
+                break
             return seq, "unexpected branch at bb%d on the all-miss path (%r)" % (b, v)
         break
     return seq, None
